@@ -56,6 +56,10 @@ blob!(S16a16, 16, 16);
 blob!(S48a16, 48, 16);
 blob!(S32a32, 32, 32);
 blob!(S64a64, 64, 64);
+blob!(S128a128, 128, 128);
+blob!(S320a8, 320, 8);
+blob!(Z256, 0, 256);
+blob!(S4096a4096, 4096, 4096);
 
 fn sh<T>() -> Value {
     json!([size_of::<T>(), align_of::<T>()])
@@ -153,7 +157,7 @@ fn case(out: &mut Vec<Value>, mut rec: Value, f: impl FnOnce() -> (usize, Value,
             rec["alloc"] = seen.alloc_of(heap);
             rec["deallocs"] = seen.deallocs_of(heap);
             rec["other_live"] = json!(seen.other_live(heap));
-            rec["bad_events"] = json!(seen.bad());
+            rec["bad_events"] = json!(seen.bad() + alloc::overruns());
             rec["meas"] = meas;
             rec["panicked"] = json!(false);
         }
@@ -198,7 +202,7 @@ fn elems<T: Shape>(n: usize) -> Vec<T> {
 
 /// header-slice blocks with header shape H and element shape T
 pub fn pair<H: Shape + Tagged, T: Shape>(out: &mut Vec<Value>) {
-    for n in [0usize, 1, 2, 3, 5] {
+    for n in [0usize, 1, 2, 3, 5, 9] {
         let base = json!({"family": "hs", "h": sh::<H>(), "t": sh::<T>(), "n": n});
         macro_rules! go {
             ($ctor:expr, $path:expr, $body:expr) => {{
@@ -706,9 +710,10 @@ pub fn run(out_path: &str) {
     let mut out: Vec<Value> = vec![];
     // sized shapes (zero-sized and over-aligned included)
     macro_rules! singles { ($($t:ident),*) => { $( single::<$t>(&mut out); )* } }
-    singles!(Z1, Z8, Z16, Z64, S1a1, S3a1, S5a1, S2a2, S6a2, S4a4, S12a4, S8a8, S24a8, S40a8, S16a16, S48a16, S32a32, S64a64);
+    singles!(Z1, Z8, Z16, Z64, Z256, S1a1, S3a1, S5a1, S2a2, S6a2, S4a4, S12a4, S8a8, S24a8, S40a8, S16a16, S48a16, S32a32, S64a64, S128a128,
+             S320a8, S4096a4096);
     macro_rules! slices { ($($t:ident),*) => { $( slice_of::<$t>(&mut out); )* } }
-    slices!(S1a1, S3a1, S2a2, S6a2, S4a4, S12a4, S8a8, S24a8, S16a16, S32a32, S64a64);
+    slices!(S1a1, S3a1, S2a2, S6a2, S4a4, S12a4, S8a8, S24a8, S16a16, S32a32, S64a64, S128a128, S320a8);
     #[cfg(feature = "full")]
     {
         for_hdr_elem!(pair, &mut out; [Z1, Z8, Z16, S1a1, S3a1, S5a1, S2a2, S4a4, S12a4, S8a8, S24a8, S16a16, S32a32, S64a64];
@@ -718,8 +723,8 @@ pub fn run(out_path: &str) {
     }
     #[cfg(not(feature = "full"))]
     {
-        for_hdr_elem!(pair, &mut out; [Z1, Z16, S1a1, S3a1, S2a2, S12a4, S8a8, S16a16]; [S1a1, S3a1, S2a2, S4a4, S8a8, S16a16, S32a32]);
-        for_hdr_elem!(union, &mut out; [Z1, Z16, S1a1, S2a2, S4a4, S8a8, S16a16, S64a64]; [Z1, Z16, S1a1, S2a2, S4a4, S8a8, S16a16, S64a64]);
+        for_hdr_elem!(pair, &mut out; [Z1, Z16, S1a1, S3a1, S2a2, S12a4, S8a8, S16a16, S128a128]; [S1a1, S3a1, S2a2, S4a4, S8a8, S16a16, S32a32, S128a128]);
+        for_hdr_elem!(union, &mut out; [Z1, Z16, S1a1, S2a2, S4a4, S8a8, S16a16, S64a64, S128a128]; [Z1, Z16, S1a1, S2a2, S4a4, S8a8, S16a16, S64a64, S128a128]);
     }
     for_hdr_elem!(overflow, &mut out; [Z1, S8a8, S12a4]; [S1a1, S4a4, S24a8]);
     macro_rules! swaps { ($($t:ident),*) => { $( arcswap::<$t>(&mut out); )* } }
